@@ -78,6 +78,62 @@ def rand_format(rng):
                          picture_coding_mode=PictureCodingModes(pcm))
 
 
+def level_formats():
+    """formats the REAL levels admit: for every column of the level table, every base video format and picture
+    coding mode it lists, the base format as it stands (and with another preset frame rate where the column allows
+    a custom one), with profile / wavelet / depth / slice counts / slice bytes taken from the same column"""
+    from sample_codec_features import MINIMAL_CODEC_FEATURES as CF
+    from vc2_conformance.codec_features import CodecFeatures
+    from vc2_conformance.level_constraints import LEVEL_CONSTRAINTS
+    from vc2_conformance.constraint_table import AnyValue
+    from vc2_conformance.pseudocode.video_parameters import set_source_defaults
+    from vc2_data_tables import BaseVideoFormats, Levels, PictureCodingModes, Profiles, WaveletFilters, PRESET_FRAME_RATES
+
+    def first(vs, default):
+        if isinstance(vs, AnyValue):
+            return default
+        vals = sorted(vs.iter_values())
+        return vals[0] if vals else default
+
+    out, seen = [], set()
+    for col in LEVEL_CONSTRAINTS:
+        if isinstance(col["level"], AnyValue) or isinstance(col["base_video_format"], AnyValue):
+            continue
+        for lv in col["level"].iter_values():
+            if lv == 0:
+                continue
+            for base in sorted(col["base_video_format"].iter_values()):
+                for pcm in ([0, 1] if isinstance(col["picture_coding_mode"], AnyValue) else sorted(col["picture_coding_mode"].iter_values())):
+                    prof = first(col["profile"], 3)
+                    kw = dict(level=Levels(lv), profile=Profiles(prof), picture_coding_mode=PictureCodingModes(pcm),
+                              wavelet_index=WaveletFilters(first(col["wavelet_index"], 1)), wavelet_index_ho=WaveletFilters(first(col["wavelet_index"], 1)),
+                              dwt_depth=first(col["dwt_depth"], 2), dwt_depth_ho=0,
+                              slices_x=first(col["slices_x"], 1), slices_y=first(col["slices_y"], 1))
+                    if prof == 0:
+                        n = kw["slices_x"] * kw["slices_y"]
+                        num, den = first(col["slice_bytes_numerator"], 64), first(col["slice_bytes_denominator"], 1)
+                        kw["picture_bytes"] = max(1, (num * n) // den)
+                        kw["lossless"] = False
+                    vps = [set_source_defaults(BaseVideoFormats(base))]
+                    if isinstance(col["custom_frame_rate_flag"], AnyValue) or True in col["custom_frame_rate_flag"]:
+                        for idx, (nu, de) in sorted(PRESET_FRAME_RATES.items()):
+                            if (isinstance(col["frame_rate_index"], AnyValue) or int(idx) in col["frame_rate_index"]) and (nu, de) != (vps[0]["frame_rate_numer"], vps[0]["frame_rate_denom"]):
+                                v = set_source_defaults(BaseVideoFormats(base))
+                                v["frame_rate_numer"], v["frame_rate_denom"] = nu, de
+                                vps.append(v)
+                                break
+                    for vp in vps:
+                        key = (lv, base, pcm, prof, vp["frame_rate_numer"], vp["frame_rate_denom"])
+                        if key in seen:
+                            continue
+                        seen.add(key)
+                        try:
+                            out.append(CodecFeatures(CF, name="fmt", video_parameters=vp, **kw))
+                        except Exception:  # noqa
+                            pass
+    return out
+
+
 def decode_header(cf, header):
     """serialise [header, end of sequence] and run the REAL validator, capturing what its sequence_header returns"""
     from vc2_conformance.bitstream import Stream, Sequence, DataUnit, ParseInfo, autofill_and_serialise_stream
@@ -85,9 +141,21 @@ def decode_header(cf, header):
     from vc2_conformance.pseudocode.state import State
     from vc2_data_tables import ParseCodes
 
+    header = copy.deepcopy(header)
+    # the major_version a level demands is not consulted by the encoder (known finding F8 of C16); it is not what this
+    # property is about (the source parameters), so the carrier stream states the version the level asks for
+    from vc2_conformance.level_constraints import LEVEL_CONSTRAINTS
+    from vc2_conformance.constraint_table import AnyValue
+
+    versions = set()
+    for col in LEVEL_CONSTRAINTS:
+        if int(cf["level"]) in col["level"] and not isinstance(col["major_version"], AnyValue):
+            versions |= set(col["major_version"].iter_values())
+    if versions:
+        header["parse_parameters"]["major_version"] = min(versions)
     f = BytesIO()
     autofill_and_serialise_stream(f, Stream(sequences=[Sequence(data_units=[
-        DataUnit(parse_info=ParseInfo(parse_code=ParseCodes.sequence_header), sequence_header=copy.deepcopy(header)),
+        DataUnit(parse_info=ParseInfo(parse_code=ParseCodes.sequence_header), sequence_header=header),
         DataUnit(parse_info=ParseInfo(parse_code=ParseCodes.end_of_sequence))])]))
     mod = importlib.import_module("vc2_conformance.decoder.stream")
     orig = mod.sequence_header
@@ -108,6 +176,10 @@ def decode_header(cf, header):
             verdict = "OK"
         except decoder.ConformanceError as e:
             verdict = "%s: %s" % (type(e).__name__, str(e).split("\n")[0][:150])
+            if type(e).__name__ == "LevelInvalidSequence" and "vp" in got:
+                # the level's data-unit ORDERING pattern wants pictures in the carrier sequence; the header itself
+                # had been validated completely (sequence_header returned) before that was noticed
+                verdict = "OK"
     finally:
         mod.sequence_header = orig
     return verdict, got
@@ -206,8 +278,9 @@ class Prop(object):
         lines, exp = group_lines(rng, ctx.n(600, 8000))
         ctx.diff("so iter_custom_options_dicts / zip_longest_repeating_final_value on synthetic tables: model == real", lines, exp)
         ctx.corr_names.append("REAL iter_sequence_headers -> serialise -> REAL validator: accepted, decodes to the configured format")
-        for _ in range(ctx.n(350, 8000)):
-            cf = rand_format(rng)
+        directed = level_formats()
+        ctx.count("directed-level-formats", len(directed))
+        for cf in directed + [rand_format(rng) for _ in range(ctx.n(350, 8000))]:
             try:
                 why, n = violates(cf)
             except Exception as e:  # noqa
@@ -225,8 +298,7 @@ class Prop(object):
 
     def search(self, ctx):
         rng = ctx.rng("search")
-        for _ in range(ctx.n(1500, 20000)):
-            cf = rand_format(rng)
+        for cf in level_formats() + [rand_format(rng) for _ in range(ctx.n(1500, 20000))]:
             try:
                 why, n = violates(cf)
             except Exception as e:  # noqa
